@@ -293,6 +293,12 @@ def oracle_C18(cmds, impl, model, stats: Stats):
                                          f"materialization; {m['tree_text']}"))
         if field(il, "again") != "same":
             out.append(Violation("C18", "repeated-iteration-differs", f"{name}: {m['tree_text']}"))
+        # "results can be iterated repeatedly with identical rows": also across executions of other
+        # relations in between -- an input consumed by an eager operation must not be disturbed
+        if field(sem, "kd") == "T" and field(il, "rows") != field(sem, "rows") and field(model[k], "det") != "F":
+            out.append(Violation("C18", "rows-changed-by-an-earlier-evaluation",
+                                 f"{name}: {field(il, 'rows')} but the operation sequence gives {field(sem, 'rows')}; "
+                                 f"{m['tree_text']}"))
     return out
 
 
